@@ -484,6 +484,53 @@ fn gen_p(ctx: &Ctx, seed: u64, run_index: u64) -> PScn {
             }
         }
     }
+    // odd but legal command lines: empty values, a directory or the null device as input, repeated options,
+    // stray arguments, the components file given as factor file
+    if o.chance(0.04) {
+        match o.below(10) {
+            0 => {
+                if let Some(i) = argv.iter().position(|a| ["-a", "-k", "-c", "-l", "--json", "--oc"].contains(&a.as_str())) {
+                    if i + 1 < argv.len() {
+                        argv[i + 1] = String::new();
+                    }
+                }
+            }
+            1 => {
+                if let Some(i) = argv.iter().position(|a| a == "-c") {
+                    argv[i + 1] = o.pick(&[".", "/dev/null", "/", "in.csv/", "./in.csv", "../disk/in.csv"]).to_string();
+                }
+            }
+            2 => {
+                argv.push("-a".into());
+                argv.push("1".into());
+                argv.push("-a".into());
+                argv.push("2".into());
+            }
+            3 => {
+                argv.push("--".into());
+                argv.push("extra".into());
+            }
+            4 => {
+                argv.push("-f".into());
+                argv.push("in.csv".into());
+            }
+            5 => argv.push("-vvvvvvvvvvvvvvvv".into()),
+            6 => {
+                argv.push("--json".into());
+                argv.push(o.pick(&[".", "", "/", "in.csv", "/dev/null", "/dev/full"]).to_string());
+            }
+            7 => {
+                argv.push("-k".into());
+                argv.push("-0".into());
+            }
+            8 => argv.push("-k=0.5".into()),
+            _ => {
+                argv.push("-c".into());
+                argv.push("in.csv".into());
+            }
+        }
+        valid_input = false;
+    }
     // fault plan
     let shape = predicted_shape(&argv, &image);
     let mut plan: Vec<PlanEntry> = Vec::new();
